@@ -11,6 +11,7 @@ import XyzModel.DrvScript
 import XyzModel.DrvData
 import XyzModel.DrvPlot
 import XyzModel.VarDims
+import XyzModel.ParseCases
 /-! JSON-lines driver over the executable models (DESIGN.md Appendix B). One request per line, one reply per line. -/
 open Lean
 
@@ -460,6 +461,46 @@ def opVarDims (j : Json) : Json :=
       Json.arr #[Json.str p.1, Json.arr (p.2.map atomJson).toArray]).toArray)]
 end VarDimsOp
 
+
+/-! ### op `parsecases`: `parse_cases` on an explicit spelling -/
+section ParseCasesOp
+open ParseCases
+
+partial def vOfJson (j : Json) : V :=
+  match j with
+  | .str x => .str x
+  | .arr a => .tup (a.toList.map vOfJson)
+  | .num n => .num n.mantissa.toNat
+  | _ => .num 0
+
+partial def vJson : V → Json
+  | .num n => toJson n
+  | .str x => Json.str x
+  | .tup l => Json.arr (l.map vJson).toArray
+
+def caseOfJson (j : Json) : List (String × V) :=
+  match j with
+  | .arr a => a.toList.map fun kv => match kv with
+    | .arr p => (match p.getD 0 Json.null with | .str k => k | _ => "?", vOfJson (p.getD 1 Json.null))
+    | _ => ("?", .num 0)
+  | _ => []
+
+def opParseCases (j : Json) : Json :=
+  let fa : Option (List String) := (j.getObjValAs? (List String) "fn_args").toOption
+  let spj := (j.getObjVal? "sp").toOption.getD Json.null
+  let sp : ParseCases.Spelling := match getStr spj "k" with
+    | "onedict" => .oneDict (caseOfJson ((spj.getObjVal? "d").toOption.getD Json.null))
+    | "dicts" => .dicts ((getArr spj "ds").map caseOfJson)
+    | "rows" => .rows ((getArr spj "rows").map fun r => match r with
+        | .arr a => .tuple (a.toList.map vOfJson)
+        | x => .bare (vOfJson x))
+    | _ => .none
+  match ParseCases.parse fa sp with
+  | .error _ => err "TypeError"
+  | .ok cs => Json.mkObj [("cases", Json.arr (cs.map fun c =>
+      Json.arr (c.map fun kv => Json.arr #[Json.str kv.1, vJson kv.2]).toArray).toArray)]
+end ParseCasesOp
+
 def handle (j : Json) : Json :=
   match getStr j "op" with
   | "batch" => opBatch j
@@ -470,6 +511,7 @@ def handle (j : Json) : Json :=
   | "fstrace" => opFsTrace j
   | "fssched" => opFsSched j
   | "vardims" => opVarDims j
+  | "parsecases" => opParseCases j
   | "ping" => Json.mkObj [("pong", true)]
   | o =>
     match DrvNum.handleNum o j with
